@@ -25,6 +25,7 @@
 #include <unifex/std_concepts.hpp>
 #include <unifex/type_list.hpp>
 #include <unifex/type_traits.hpp>
+#include <unifex/detail/verif_hooks.hpp>
 
 #include <algorithm>
 #include <atomic>
@@ -159,6 +160,7 @@ struct _element_receiver<Index, Receiver, Senders...>::type final {
 
   template <typename Error>
   void set_error(Error&& error) noexcept {
+    UNIFEX_VERIF_YIELD("algrace.wa_xchg");
     if (!op_.doneOrError_.exchange(true, std::memory_order_relaxed)) {
       op_.error_.emplace(
           std::in_place_type<std::decay_t<Error>>, (Error&&)error);
@@ -168,6 +170,7 @@ struct _element_receiver<Index, Receiver, Senders...>::type final {
   }
 
   void set_done() noexcept {
+    UNIFEX_VERIF_YIELD("algrace.wa_xchg");
     if (!op_.doneOrError_.exchange(true, std::memory_order_relaxed)) {
       op_.stopSource_.request_stop();
     }
@@ -224,6 +227,7 @@ struct _op<Receiver, Senders...>::type {
 
   void request_stop() noexcept {
     // mark callback as running (own deliver_result)
+    UNIFEX_VERIF_YIELD("algrace.wa_cb_add");
     if (refCount_.fetch_add(1, std::memory_order_relaxed) == 0) {
       // deliver_result already called
       return;
@@ -235,6 +239,7 @@ struct _op<Receiver, Senders...>::type {
 
 private:
   void element_complete() noexcept {
+    UNIFEX_VERIF_YIELD("algrace.wa_sub");
     if (refCount_.fetch_sub(1, std::memory_order_acq_rel) == 1) {
       deliver_result();
     }
